@@ -7,6 +7,8 @@
   every sector size ≥ 92, every trailing sector content.
 -/
 import DiskfsModel.Proofs.GptWhole
+import DiskfsModel.Proofs.GptValid
+import DiskfsModel.Proofs.GptIdem
 import DiskfsModel.Proofs.MbrTable
 import DiskfsModel.Generated.GptCodec
 namespace Diskfs.Gpt.C02
@@ -100,6 +102,116 @@ theorem gpt_read_write (c : Cfg) (crc : Bytes → Nat) (hcrc : ∀ b, crc b < tw
       t'.guid = t0.guid ∧ t'.backup = false ∧ t'.primaryHeader = 1 ∧ t'.secondaryHeader = t.secondaryHeader ∧
       t'.firstData = t.firstData ∧ t'.lastData = t.lastData :=
   read_write_fresh c crc hcrc d t0 size ws t hf hlss hg hwf hmin hsz hw
+
+/-- validity for an independent parser, for EVERY prior device content `d`: if `Write` accepts a fresh
+    table on a disk that holds both copies (2·p+3 sectors, p = 16384/lss — exactly what the repaired
+    Write demands, see `write_ok_min_size`), the resulting device satisfies `GptSpec.GptValid`
+    (Spec/GptValid.lean, written from the UEFI rules, not from the encoder): valid primary header at
+    LBA 1 and valid backup header at the last LBA (signature, revision, size 92, header CRC over the 92
+    bytes with the CRC field zeroed, reserved zero, MyLBA / AlternateLBA cross-referenced, rest of the
+    sector zero), the backup mirroring the primary in every field but the three swapped ones, both
+    stored array CRCs equal to the CRC of the 16 KiB at the respective PartitionEntryLBA, entry size
+    128, and the layout LBA0 | header | primary array | usable | backup array | header without overlap
+    and with FirstUsableLBA / LastUsableLBA leaving room for both arrays.  CRC32 is any function below
+    2^32; the proof never evaluates it.  Holds for any `c` (as found and repaired alike). -/
+theorem gpt_written_valid (c : Cfg) (crc : Bytes → Nat) (hcrc : ∀ b, crc b < two32) (d : Dev)
+    (t0 : Table) (size : Nat) (ws : List Wr) (t : Table)
+    (hf : Fresh t0) (hlss : t0.lss = 512 ∨ t0.lss = 4096) (hg : t0.guid.length = 16) (hsz : size < two63)
+    (hmin : (2 * (16384 / t0.lss) + 3) * t0.lss ≤ size)
+    (hw : write c crc t0 size = .ok (ws, t)) :
+    GptSpec.GptValid crc (applyWrs d ws) size t0.lss :=
+  written_gpt_valid c crc hcrc d t0 size ws t hf hlss hg hsz hmin hw
+
+/-- the minimum-size premise of `gpt_written_valid` is what the repaired Write demands: if it accepts a
+    fresh table at all, the disk has 2·p+3 sectors (as found — `cex_min_disk` — smaller disks were accepted) -/
+theorem write_ok_min_size (c : Cfg) (crc : Bytes → Nat) (t0 : Table) (size : Nat) (ws : List Wr) (t : Table)
+    (hf : Fresh t0) (hlss : t0.lss = 512 ∨ t0.lss = 4096) (hsz : size < two63) (hc : c.minDiskCheck = true)
+    (hw : write c crc t0 size = .ok (ws, t)) :
+    (2 * (16384 / t0.lss) + 3) * t0.lss ≤ size :=
+  Gpt.write_ok_min_size c crc t0 size ws t hf hlss hsz hc hw
+
+/-- …and, when the table asks for a protective MBR, LBA 0 is one that covers the disk (`GptSpec.PmbrValid`:
+    55 AA, one non-bootable 0xEE record from LBA 1 of min(sectors − 1, 0xFFFFFFFF) sectors, records 1–3
+    zero) — with the size clamp of the repaired code (`c.pmbrClamp`; `cex_pmbr_truncated` is the
+    as-found counterexample) and wherever in the write order the protective MBR comes -/
+theorem gpt_written_pmbr_valid (c : Cfg) (crc : Bytes → Nat) (d : Dev)
+    (t0 : Table) (size : Nat) (ws : List Wr) (t : Table)
+    (hf : Fresh t0) (hlss : t0.lss = 512 ∨ t0.lss = 4096) (hg : t0.guid.length = 16) (hsz : size < two63)
+    (hmin : (2 * (16384 / t0.lss) + 3) * t0.lss ≤ size)
+    (hpm : t0.pmbr = true) (hclamp : c.pmbrClamp = true)
+    (hw : write c crc t0 size = .ok (ws, t)) :
+    GptSpec.PmbrValid (applyWrs d ws) size t0.lss :=
+  written_pmbr_valid c crc d t0 size ws t hf hlss hg hsz hmin hpm hclamp hw
+
+/-- the library's own header check is sound for the specification: any sector readGPTHeader accepts
+    carries the signature, revision 1.0, header size 92, a zero reserved field and the CRC of its first
+    92 bytes with the CRC field zeroed, and the reader returns exactly the specification's field values -/
+theorem read_header_sound (crc : Bytes → Nat) (s : Bytes) (h : Hdr) (hlen : 92 ≤ s.length)
+    (hr : readHeader crc s = .ok h) :
+    slice s 0 8 = GptSpec.signature ∧ (GptSpec.rawHdr s).revision = 0x00010000 ∧
+    (GptSpec.rawHdr s).headerSize = 92 ∧ (GptSpec.rawHdr s).headerCrc = crc (GptSpec.crcInput s 92) ∧
+    (GptSpec.rawHdr s).reserved = 0 ∧ (GptSpec.rawHdr s).myLBA = h.myLBA ∧ (GptSpec.rawHdr s).alternateLBA = h.altLBA ∧
+    (GptSpec.rawHdr s).arrayCrc = h.arrCrc := by
+  obtain ⟨a1, a2, a3, a4, a5, a6, a7, _, _, _, _, _, _, a14⟩ := readHeader_ok_spec crc s h hlen hr
+  exact ⟨a1, a2, a3, a4, a5, a6, a7, a14⟩
+
+/-- READ-THEN-REWRITE IS IDEMPOTENT (GPT; the C14 clause "rewriting a table that was read from disk
+    changes nothing").  `ws` = what `Write` emits for a fresh table of well-formed entries over ANY device
+    `d`; `t1` = what gpt.Read returns for the result (an initialised table: geometry taken from the header);
+    if `Write t1` is accepted, applying its writes changes NO byte of the device, and the table it is
+    left with lists the same partitions.  Premises, explicit: the entries the first Write was left with
+    have 1 ≤ start ≤ end (no uint64 wrap-around of end below start); if the table read back carries the
+    protective-MBR flag then the first Write wrote the protective MBR (otherwise bytes 446..511 come from
+    elsewhere, and readProtectiveMBR does not check the CHS bytes Write would zero).  Holds for every `c`
+    (either position of the protective-MBR write). -/
+theorem gpt_write_idempotent (c : Cfg) (crc : Bytes → Nat) (hcrc : ∀ b, crc b < two32) (d : Dev)
+    (t0 : Table) (size : Nat) (ws : List Wr) (t : Table)
+    (hf : Fresh t0) (hlss : t0.lss = 512 ∨ t0.lss = 4096) (hg : t0.guid.length = 16)
+    (hwf : ∀ p ∈ t0.parts, allZero p.typ = true ∨ (EntryWF p ∧ p.size < two64))
+    (hsz : size < two63) (hmin : (2 * (16384 / t0.lss) + 3) * t0.lss ≤ size)
+    (hw : write c crc t0 size = .ok (ws, t))
+    (hord : ∀ p ∈ t.parts, allZero p.typ = false → 1 ≤ p.start ∧ p.start ≤ p.end_)
+    (t1 : Table) (hr : (read c crc (applyWrs d ws) size t0.lss).1 = .ok t1)
+    (hpmb : t1.pmbr = true → t0.pmbr = true)
+    (ws1 : List Wr) (t2 : Table) (hw1 : write c crc t1 size = .ok (ws1, t2)) :
+    applyWrs (applyWrs d ws) ws1 = applyWrs d ws ∧ t2.parts = t1.parts :=
+  write_read_write_noop c crc hcrc d t0 size ws t hf hlss hg hwf hsz hmin hw hord t1 hr hpmb ws1 t2 hw1
+
+/-- what gpt.Read returns for a device `Write` produced, field by field (partitions in slot order, sector
+    size, disk GUID, 128 × 128 array at LBA 2, its CRC, header LBAs, usable range): the initialised table
+    the rewrite starts from -/
+theorem gpt_read_back_exact (c : Cfg) (crc : Bytes → Nat) (hcrc : ∀ b, crc b < two32) (d : Dev)
+    (t0 : Table) (size : Nat) (ws : List Wr) (t : Table)
+    (hf : Fresh t0) (hlss : t0.lss = 512 ∨ t0.lss = 4096) (hg : t0.guid.length = 16)
+    (hwf : ∀ p ∈ t0.parts, allZero p.typ = true ∨ (EntryWF p ∧ p.size < two64))
+    (hsz : size < two63) (hmin : (2 * (16384 / t0.lss) + 3) * t0.lss ≤ size)
+    (hw : write c crc t0 size = .ok (ws, t)) :
+    ∃ pm arr, arrEnc c (initTable t0 size) = .ok (arr, t.parts) ∧ (∀ p ∈ t.parts, EntryExact t0.lss p) ∧
+      (read c crc (applyWrs d ws) size t0.lss).1 = .ok (readBack t0 t.parts size pm (crc arr)) :=
+  read_after_write c crc hcrc d t0 size ws t hf hlss hg hwf hsz hmin hw
+
+/-- READ-THEN-REWRITE IS IDEMPOTENT (MBR), for ANY device mbr.Read accepts, whoever wrote it and whatever
+    the slots hold (any type byte, CHS bytes, start / size): the 66 bytes Table.Write emits for the four
+    partitions mbr.Read returned are exactly the bytes already at 446..511, so no byte changes -/
+theorem mbr_write_idempotent (d : Dev) (devSize : Nat) (ps : List Mbr.Part) (h : (Mbr.read d devSize).1 = some ps) :
+    applyWrs d (Mbr.write ps) = d :=
+  Mbr.write_read_noop d devSize ps h
+
+/-- a 16-byte MBR slot that partitionFromBytes accepts is re-encoded to the same 16 bytes -/
+theorem mbr_entry_enc_dec (b : Bytes) (hb : b.length = 16) (i : Nat) (p : Mbr.Part) (h : Mbr.entryDec i b = some p) :
+    Mbr.entryEnc p = b :=
+  Mbr.entryEnc_entryDec b hb i p h
+
+-- non-vacuity of `gpt_written_valid` / `gpt_written_pmbr_valid`: the repaired Write accepts a concrete fresh
+-- table on a disk of exactly the minimum size (67 sectors), and the predicate is not trivially true
+-- (a blank device is not a valid GPT)
+set_option maxRecDepth 100000 in
+example : (write Cfg.fixed (fun _ => 0)
+    { parts := [{ index := 2, start := 34, end_ := 34, size := 0, typ := List.replicate 16 7, guid := List.replicate 16 9,
+                  attrs := 0, name := [0x61] }], lss := 512, guid := List.replicate 16 3, pmbr := true }
+    (67 * 512)).isOk = true ∧ (2 * (16384 / 512) + 3) * 512 ≤ 67 * 512 := by decide
+set_option maxRecDepth 100000 in
+example : ¬ GptSpec.GptValid (fun _ => 0) (fun _ => 0) 1048576 512 := by decide
 
 -- non-vacuity of `gpt_read_write`: a concrete fresh table that `Write` accepts
 set_option maxRecDepth 100000 in
